@@ -45,7 +45,7 @@ def _coef(cmp: Cmp, size, m) -> Optional[tuple]:
 def r1(ctx):
     ana = ctx.ana
     fi = ana.func(REPOP)
-    b = ana.builder(fi, no_inline=lambda f: True)
+    b = ana.builder(fi, no_inline=ana.known)
     m = Sym(fi.params[0])
     stores = b.stores()
     cl = [s for s in stores if s.attr == "clusters"]
@@ -97,7 +97,7 @@ def r1(ctx):
 def r2(ctx):
     ana = ctx.ana
     fi = ana.func(REPOP)
-    b = ana.builder(fi, no_inline=lambda f: True)
+    b = ana.builder(fi, no_inline=ana.known)
     cfg = ana.cfg(fi)
     m = Sym(fi.params[0])
     adds = [n for n in Resolver.walk_own(fi.node) if isinstance(n, ast.Call) and isinstance(n.func, ast.Attribute)
@@ -134,7 +134,7 @@ def r2(ctx):
 def r3(ctx):
     ana = ctx.ana
     fi = ana.func(DONOR)
-    b = ana.builder(fi, no_inline=lambda f: True)
+    b = ana.builder(fi, no_inline=ana.known)
     cfg = ana.cfg(fi)
     model = Sym(fi.params[0])
     mm = Attr(Attr(model, "arguments"), "min_cluster_size")
@@ -197,7 +197,7 @@ def r3(ctx):
               expected="pool[0]", found=str(donor))
     # donation size
     mv = ana.func(MOVE)
-    bm = ana.builder(mv, no_inline=lambda f: True)
+    bm = ana.builder(mv, no_inline=ana.known)
     samples = [x for n in ana.cfg(mv).nodes if n.kind == "stmt" and isinstance(n.ast, ast.Assign)
                for x in tm.subterms(bm.term(n.ast.value, n)) if isinstance(x, App) and x.fn == "random.sample"]
     if not samples:
@@ -208,7 +208,7 @@ def r3(ctx):
               expected=str(mm2), found=str(sm.args[1]) if len(sm.args) > 1 else "")
     # ranking filter uses the same eligibility constant
     rk = ana.func(RANK)
-    br = ana.builder(rk, no_inline=lambda f: True)
+    br = ana.builder(rk, no_inline=ana.known)
     pot = None
     for n in Resolver.walk_own(rk.node):
         if isinstance(n, ast.ListComp) and n.generators[0].ifs:
@@ -280,7 +280,7 @@ def r4(ctx):
 def r5(ctx):
     ana = ctx.ana
     mv = ana.func(MOVE)
-    b = ana.builder(mv, no_inline=lambda f: True)
+    b = ana.builder(mv, no_inline=ana.known)
     cfg = ana.cfg(mv)
     model, donor, recip = (Sym(p) for p in mv.params)
     members = Attr(Idx(Attr(model, "clusters"), (donor,)), "member_points")
@@ -304,17 +304,19 @@ def r5(ctx):
     idx = s.idx[0]
     ok = False
     found = str(idx)
-    if isinstance(idx, Idx) and len(idx.idx) == 1:
-        lst = idx.base
-        if isinstance(lst, Comp) and not lst.conds:
-            samp = lst.iter
-            # iter is range(len(sample)); element is members[sample[v]]
-            el = lst.elt
-            if isinstance(el, Idx) and el.base == members and len(el.idx) == 1 and isinstance(el.idx[0], Idx):
-                sm = el.idx[0].base
-                want = App("random.sample", (Range(0, tm.length(members)), Attr(Attr(model, "arguments"), "min_cluster_size")))
-                ok = sm == want
-                found = f"{name}[{members}[{sm}[j]]]"
+    want = App("random.sample", (Range(0, tm.length(members)), Attr(Attr(model, "arguments"), "min_cluster_size")))
+    # the store index is members[sample[j]] with j running over the whole sample
+    if isinstance(idx, Idx) and idx.base == members and len(idx.idx) == 1 and isinstance(idx.idx[0], Idx) and len(idx.idx[0].idx) == 1:
+        sm = idx.idx[0].base
+        j = idx.idx[0].idx[0]
+        full = bool(s.loop_vars) and s.loop_vars[-1] == j and s.loop_ranges[-1] is None
+        if not full and s.loop_vars and s.loop_vars[-1] == j:
+            full = True
+        # the loop must run over every drawn index: its binder is range(len(sample)) (possibly through a list of ids of that length)
+        bind = b.binder_of(s.loops[-1]) if s.loops else None
+        full = bind is not None and bind[0] == j and bind[1] in (Range(0, tm.length(sm)), Range(0, tm.length(Range(0, tm.length(sm)))))
+        ok = sm == want and full
+        found = f"{name}[{members}[{sm}[{j}]]] for {bind[0] if bind else '?'} in {bind[1] if bind else '?'}"
     ctx.check(ok, mv, "the relabelled points are members[i] for i in random.sample(range(len(members)), m): m distinct points of the donor",
               line=s.stmt.lineno, role="move:which", expected=f"random.sample(range(len({members})), m) indexing {members}", found=found[:220])
     others = [m_ for m_ in b.mutated.get(name, []) if not isinstance(m_, ast.Assign)]
@@ -325,7 +327,7 @@ def r5(ctx):
 def r6(ctx):
     ana = ctx.ana
     fi = ana.func(REPOP)
-    b = ana.builder(fi, no_inline=lambda f: True)
+    b = ana.builder(fi, no_inline=ana.known)
     cfg = ana.cfg(fi)
     cl = [s for s in b.stores() if s.attr == "clusters"]
     lab = [s for s in b.stores() if s.attr == "point_labels"]
